@@ -133,6 +133,62 @@ class Harness:
             return "raise", e.exc
 
 
+class SliceError(Exception):
+    pass
+
+
+def _stmt_assigns(stmt, name):
+    """does `stmt` (or a statement nested in it) assign the local variable `name`?"""
+    import ast
+
+    for n in ast.walk(stmt):
+        if isinstance(n, ast.Name) and n.id == name and isinstance(n.ctx, ast.Store):
+            return True
+    return False
+
+
+def _Harness_slice(self, qualname, first=None, last=None, first_assign=None, last_assign=None, until_raise=None, env=None, body_of=None):
+    """Execute a contiguous slice of the top-level statements of the REAL function `qualname`:
+    from the first statement assigning `first_assign` through the last statement assigning `last_assign`
+    (or the `if` statement that raises `until_raise`).  Statements before the slice are NOT executed: the
+    names they define must be supplied in `env` (arbitrary/havoc values = sound over-approximation).
+    Returns ('ok', env_dict) or ('raise', ExcVal)."""
+    import ast
+
+    from .interp import Env
+
+    fs = source.load(qualname)
+    self.udesc.setdefault("_srcs", {})[qualname] = {"sha256": fs.sha256, "lines": fs.nlines, "file": os.path.relpath(fs.mod.path, source.SRC), "lineno": fs.lineno, "slice": f"{first_assign}..{last_assign or until_raise}"}
+    body = fs.node.body
+    i0 = i1 = None
+    for i, st in enumerate(body):
+        if i0 is None and first_assign and _stmt_assigns(st, first_assign):
+            i0 = i
+        if last_assign and _stmt_assigns(st, last_assign):
+            i1 = i
+        if until_raise and i0 is not None and i1 is None:
+            for n in ast.walk(st):
+                if isinstance(n, ast.Raise) and n.exc is not None and until_raise in ast.dump(n.exc):
+                    i1 = i
+                    break
+    if i0 is None or i1 is None or i1 < i0:
+        raise Undecided(f"slice {first_assign}..{last_assign or until_raise} not found in {qualname}")
+    e = Env(self.interp.module_env(fs.mod))
+    from .interp import Closure
+
+    e.func = Closure(fs.node, self.interp.module_env(fs.mod), self.interp, fs.mod, fs.cls, qualname)
+    for k, v in (env or {}).items():
+        e.set(k, v)
+    try:
+        self.interp.exec_block(body[i0 : i1 + 1], e)
+    except SymRaise as ex:
+        return "raise", ex.exc
+    return "ok", e.vars
+
+
+Harness.slice = _Harness_slice
+
+
 def _eval_model(model, t):
     v = model.eval(t, model_completion=True)
     if z3.is_int_value(v):
@@ -287,7 +343,7 @@ def run_replay(spec, workdir):
         text=True,
         timeout=600,
         cwd=workdir,
-        env=dict(os.environ, APP_ENV="local", DATA_ENV="dev", MODEL_S3_BUCKET="b", MODEL_S3_PATH_ROOT="r", PYTHONPATH=source.SRC),
+        env=dict(os.environ, APP_ENV="local", DATA_ENV="dev", MODEL_S3_BUCKET="b", MODEL_S3_PATH_ROOT="r", PYTHONPATH=source.SRC + os.pathsep + VERIF),
     )
     try:
         last = [l for l in p.stdout.strip().splitlines() if l.startswith("{")][-1]
